@@ -10,6 +10,7 @@ import (
 	"sort"
 	"strconv"
 	"strings"
+	"sync"
 	"time"
 )
 
@@ -173,7 +174,57 @@ func (c *Ctx) Check(rule, key, desc string, f func(o *Ob)) *Ob {
 	if o.Status == Discharged && o.Evals == 0 && len(o.Unrecognised) == 0 {
 		c.giveUp(o, "rule inspected no construct (vacuous)")
 	}
+	// An obligation that looks at far fewer constructs than it did on the
+	// reviewed tree may be passing over an empty set (the call sites it
+	// collects became a table, say).  That is not a violation, but it is not
+	// a decision either.
+	if n0 := c.confirmedCount(rule, key); o.Status == Discharged && n0 >= 2 && o.Evals*2 < n0 && len(o.Unrecognised) == 0 {
+		c.giveUp(o, fmt.Sprintf("inspected %d constructs where %d were inspected on the reviewed tree: part of what this rule decides may have moved out of its sight", o.Evals, n0))
+	}
 	return o
+}
+
+var (
+	confirmedOnce sync.Once
+	confirmed     map[string]map[string]int
+)
+
+// confirmedCount returns the number of constructs the obligation inspected
+// on the reviewed tree (confirmed-counts.json, written by tools/gencounts.sh
+// and committed; never written by a check).
+func (c *Ctx) confirmedCount(rule, key string) int {
+	confirmedOnce.Do(func() {
+		b, err := os.ReadFile(filepath.Join(c.VerifDir, "confirmed-counts.json"))
+		if err != nil {
+			return
+		}
+		_ = json.Unmarshal(b, &confirmed)
+	})
+	if confirmed == nil {
+		return 0
+	}
+	return confirmed[c.Prop][rule+"|"+key]
+}
+
+// WriteCounts merges the construct counts of this run into the given file
+// (used by tools/gencounts.sh only).
+func (c *Ctx) WriteCounts(path string) error {
+	all := map[string]map[string]int{}
+	if b, err := os.ReadFile(path); err == nil {
+		_ = json.Unmarshal(b, &all)
+	}
+	m := map[string]int{}
+	for _, o := range c.Obs {
+		if o.Status == Discharged && len(o.Unrecognised) == 0 {
+			m[o.Rule+"|"+o.Key] = o.Evals
+		}
+	}
+	all[c.Prop] = m
+	b, err := json.MarshalIndent(all, "", " ")
+	if err != nil {
+		return err
+	}
+	return os.WriteFile(path, b, 0o644)
 }
 
 // Strict reports whether a recogniser that does not find its construct
